@@ -76,13 +76,12 @@ structure Variant where
   fix15c : Bool       -- #15 tests `!notifications_available`
   fix15l : Bool       -- #15 resets the lifetime counter
   fixExpire : Bool
-  /-- NOT in this source tree: the repair of C21 made on another branch (`handle_state_result`, arm
-  `None`: with publishing enabled a collected notification is queued instead of dropped).  Kept as a
-  switch so that the model can follow when the branches are merged. -/
+  /-- the repair of C21 (`handle_state_result`, arm `None`: with publishing enabled a collected
+  notification is queued instead of dropped); `false` = the source before that repair -/
   keepOnNone : Bool := false
 deriving Repr, DecidableEq
 
-def current : Variant := { fix15c := true, fix15l := true, fixExpire := true, keepOnNone := false }
+def current : Variant := { fix15c := true, fix15l := true, fixExpire := true, keepOnNone := true }
 def pinned : Variant := { fix15c := false, fix15l := false, fixExpire := false, keepOnNone := false }
 
 /-- state #15 of the table -/
